@@ -224,4 +224,7 @@ def check(ctx: Ctx) -> str:
 
     newline_rules(ctx, "R9")
     whitespace_notion_rule(ctx, "R10")
+    from ..lexrules import delimiters_escaped_rule
+
+    delimiters_escaped_rule(ctx, "R11")
     return __doc__ or ""
